@@ -78,4 +78,14 @@ PROPS['C15'] = {
     'assumptions': ['probe of 8 batch sizes x 4 lengths per lane manager is what "all subsequent behaviour" is bounded to'],
 }
 
+PROPS['C07'] = {
+    'level': 'exploration',
+    'technique': 'bounded-exhaustive enumeration of buffer placements against unmapped guard pages on the real library (fault address = oracle)',
+    'level_text': 'Every algorithm row x direction x every valid length of the sweep x {all caller objects end-flush, all start-flush against PROT_NONE pages} x {alone, co-scheduled between a longer and a shorter job} x 7 variants, plus IV/tag/AAD extent sweeps; any access outside an object faults and is attributed to the object by address; canaries catch stray writes on shared pages; out-of-place sources must be unchanged.',
+    'level_note': 'Key objects and the manager itself are not guard-placed; direct-API functions are guard-placed by the C09 driver. In-place = out-of-place equality follows from C01-C03 comparing both against one reference.',
+    'drivers': [{'name': 'c07', 'src': ['props/c07.c'] + ALG, 'cfgs': ['std'], 'args': ''}],
+    'deadline': {'quick': 900, 'thorough': 3000},
+    'assumptions': ['object extents: message range, iv_len, aad_len, tag_len exactly as given in the job'],
+}
+
 NOT_APPLICABLE = {}
